@@ -5,7 +5,7 @@ worktree and require a VIOLATION. Usage: run.py [name-substring ...] [--keep]"""
 import os, subprocess, sys, json, time, shutil
 sys.path.insert(0, os.path.dirname(__file__))
 from mutants import M
-VERIF = os.path.dirname(os.path.dirname(os.path.abspath(__file__)))
+VERIF = os.environ.get("SELFTEST_VERIF", os.path.dirname(os.path.dirname(os.path.abspath(__file__))))
 WT = "/tmp/asemon-selftest-wt"
 TGT = "/tmp/asemon-selftest-target"
 sel = [a for a in sys.argv[1:] if not a.startswith("--")]
@@ -34,7 +34,7 @@ try:
             ok = "50 passed; 0 failed" in r.stdout
             if not ok:
                 results.append((mu["name"], mu["prop"], "REPO-TESTS-FAIL-OR-NO-BUILD: " + r.stdout.strip()[:200], 0)); print(results[-1], flush=True); continue
-        env = dict(os.environ, ASEMON_REPO=WT, ASEMON_TARGET_DIR=TGT + "/harness")
+        env = dict(os.environ, ASEMON_REPO=WT, ASEMON_TARGET_DIR=TGT + "/harness", ASEMON_VERIF_DIR=VERIF)
         r = sh(f"cd {VERIF} && ./check {mu['prop']} --tier quick", env=env)
         dt = time.time() - t0
         viol = [l for l in r.stdout.splitlines() if l.startswith("VIOLATION")]
@@ -45,6 +45,6 @@ try:
 finally:
     sh(f"git -C /repo worktree remove --force {WT}")
     sh("git -C /repo worktree prune")
-json.dump(results, open(os.path.join(VERIF, "selftest", "last_results.json"), "w"), indent=1)
+json.dump(results, open(os.environ.get("SELFTEST_OUT", os.path.join(VERIF, "selftest", "last_results.json")), "w"), indent=1)
 det = sum(1 for r in results if r[2] == "DETECTED")
 print(f"{det}/{len(results)} mutants detected")
